@@ -99,11 +99,13 @@ def scn_select(T, case):
 
 # ---------------------------------------------------------------------------------- filter object
 def _filter(T, method, options, cfg):
-    """An instance of the (shadow) DefaultRealizationFilter without running __init__ (pydantic option parsing is not under contract)."""
+    """An instance of the (shadow) DefaultRealizationFilter made by its REAL constructor for the given configuration (whatever private
+    state the class keeps is the state its constructor sets up).  Only the parsing of a SYMBOLIC option value by pydantic is outside
+    the contract: for options with a symbolic value `model_validate` is `model_construct` (same class, same fields, no coercion)."""
     if T.symbolic:
         sh = T.shadow([M])
         cls = T.under_contract(sh, M, "DefaultRealizationFilter")
-        for q in ("_sort_objectives", "_sort_constraint", "_check_range", "get_realization_weights", "_cvar_objectives", "_cvar_constraint"):
+        for q in ("__init__", "_sort_objectives", "_sort_constraint", "_check_range", "get_realization_weights", "_cvar_objectives", "_cvar_constraint"):
             T.under_contract(sh, M, "DefaultRealizationFilter." + q)
         T.under_contract(sh, M, "_sort_and_select")
         T.under_contract(sh, M, "_get_cvar_weights_from_percentile")
@@ -114,11 +116,13 @@ def _filter(T, method, options, cfg):
         mod = importlib.import_module(M)
         cls, ns = mod.DefaultRealizationFilter, vars(mod)
     optcls = {"sort-objective": "SortObjectiveOptions", "sort-constraint": "SortConstraintOptions", "cvar-objective": "CVaRObjectiveOptions", "cvar-constraint": "CVaRConstraintOptions"}[method]
-    flt = object.__new__(cls)
-    flt._enopt_config = cfg
-    flt._method = method
-    flt._filter_options = ns[optcls].model_construct(**options)
-    return flt
+    cfg.realization_filters = [types.SimpleNamespace(method=method, options=dict(options))]
+    symbolic_option = T.symbolic and any(not isinstance(v, (int, float, list, tuple, str, bool, type(None))) for v in options.values())
+    if symbolic_option and optcls in ns:
+        base = ns[optcls]
+        sub = type(base.__name__, (base,), {"model_validate": classmethod(lambda c, o, *a, **k: c.model_construct(**o)), "__module__": base.__module__})
+        ns[optcls] = sub
+    return cls(cfg, 0)
 
 
 def cases_filter(tier):
@@ -196,10 +200,10 @@ def scn_range(T, case):
 
     n = case["n"]
     cfg = types.SimpleNamespace(realizations=types.SimpleNamespace(weights=T.real("weights", (n,), lo=0.0)))
-    flt = _filter(T, "sort-objective", {"sort": [0], "first": case["first"], "last": case["last"]}, cfg)
     valid = 0 <= case["first"] <= case["last"] < n
     try:
-        flt._check_range(flt._filter_options)
+        # 'rejected at configuration time': by the real constructor
+        _filter(T, "sort-objective", {"sort": [0], "first": case["first"], "last": case["last"]}, cfg)
     except ConfigError:
         T.prove("C05.check_range.rejects_only_windows_outside_the_ensemble", not valid)
         return
@@ -266,37 +270,43 @@ def cases_rows(tier):
 
 
 def scn_rows(T, case):
+    """Observed on the results of the real EnsembleEvaluator (made by its constructor, filters behind the plug-in manager): the
+    realization weights reported for each objective and constraint are those of the filter mapped to it (the configured ones for
+    an unmapped function), and each mapped filter is asked once per evaluation, an unmapped one never."""
+    from contracts import harness as H
+
     J, K, F, R = case["J"], case["K"], case["F"], 2
-    if T.symbolic:
-        sh = T.shadow([ME])
-        cls = T.under_contract(sh, ME, "EnsembleEvaluator")
-        T.under_contract(sh, ME, "EnsembleEvaluator._calculate_filtered_realization_weights")
-    else:
-        cls = T.func(ME, "EnsembleEvaluator")
-    cfgw = T.real("weights", (R,), lo=0.0)
-    W = [T.real("W%d" % f, (R,), lo=0.0) for f in range(F)]
+    ch = H.Chain(T)
+    cfgw0 = T.real("weights", (R,), lo=0.001)
+    tot = T.total([cfgw0[r] for r in range(R)])
+    cfgw = cfgw0 / tot
+    W = [T.real("W%d" % f, (R,), lo=0.001) for f in range(F)]
     log = []
-    ev = object.__new__(cls)
-    ev._config = types.SimpleNamespace(
-        objectives=types.SimpleNamespace(weights=T.const(np.ones(J)), realization_filters=None if case["omap"] is None else np.array(case["omap"], dtype=np.intc)),
-        nonlinear_constraints=None if not K else types.SimpleNamespace(lower_bounds=T.const(np.zeros(K)), realization_filters=None if case["cmap"] is None else np.array(case["cmap"], dtype=np.intc)),
-        realizations=types.SimpleNamespace(weights=cfgw),
-    )
-    ev._realization_filters = [_AbstractFilter(W[f], log, f) for f in range(F)]
-    res = types.SimpleNamespace(objectives=T.real("objectives", (R, J)), constraints=T.real("constraints", (R, K)) if K else None)
-    ow, cw = ev._calculate_filtered_realization_weights(res)
+    vals = T.real("values", (R, J + K))
+    sev = H.ScriptedEvaluator(T, ch, lambda v, r, p, k: vals[r, :J], (lambda v, r, p, k: vals[r, J:]) if K else None)
+    cfg = H.make_config(T, R, J, K, 1, weights=cfgw, ow=T.const(np.ones(J)), min_success=1, omap_flt=case["omap"], cmap_flt=case["cmap"])
+    ev = H.make_evaluator(T, ch, cfg, sev, filters=[_AbstractFilter(W[f], log, f) for f in range(F)])
+    (res,) = ev.calculate(T.real("x", (1,)), compute_functions=True, compute_gradients=False)
     used = set((case["omap"] or []) + (case["cmap"] or [])) - {-1}
     T.prove("C05.rows.only_mapped_filters_are_evaluated_once", sorted(log) == sorted(used))
-    for name, mat, fmap, cnt in (("objective", ow, case["omap"], J), ("constraint", cw, case["cmap"], K)):
+    rz = res.realizations
+    for name, mat, fmap, cnt in (("objective", rz.objective_weights, case["omap"], J), ("constraint", rz.constraint_weights, case["cmap"], K)):
         if mat is None:
             # None means: the configured weights for every function
-            T.prove("C05.rows.%s_weights_none_only_if_no_function_is_filtered" % name, fmap is None or all(f < 0 for f in fmap))
+            T.prove("C05.rows.%s_weights_none_only_if_no_function_is_filtered" % name, fmap is None or all(f < 0 for f in fmap) or cnt == 0)
             continue
         T.prove("C05.rows.%s_weights_shape" % name, tuple(mat.shape) == (cnt, R))
         for j in range(cnt):
             f = -1 if fmap is None else fmap[j]
             T.prove("C05.rows.%s_row_is_weights_in_force" % name, T.same(mat[j, :], W[f] if f >= 0 else cfgw))
-    T.prove("C05.rows.configured_weights_not_modified", T.same(cfgw, ev._config.realizations.weights))
+    T.prove("C05.rows.configured_weights_not_modified", T.same(cfgw, cfg.realizations.weights))
+    # ... and the values are estimated with them
+    for name, got, fmap, cnt, off in (("objective", res.functions.objectives, case["omap"], J, 0), ("constraint", res.functions.constraints, case["cmap"], K, J)):
+        for j in range(cnt):
+            f = -1 if fmap is None else fmap[j]
+            w = W[f] if f >= 0 else cfgw
+            wt = T.total([w[r] for r in range(R)])
+            T.prove("C05.rows.%s_value_is_estimated_with_the_weights_in_force" % name, T.same(got[j], T.total([(w[r] / wt) * vals[r, off + j] for r in range(R)])))
 
 
 # ---------------------------------------------------------------------------------- the filter inside the real evaluator
